@@ -752,6 +752,806 @@ def generate_is_equal(src: Path) -> str:
             f"    (dfs : N → List N) ({ps[0]} {ps[1]} : N) : Except Unit Bool :=\n  {body}\n\nend PyOak.GenK\n")
 
 
+# ------------------------------------------------------------------------------------------------ match/pattern.py (C08, optional)
+#
+# `BaseMatcher.match` and the `_match` methods of the six matcher classes  ->  Gen/KernelsMatch.lean, over the TYPES of the
+# hand-written model (Model/Pattern.lean: `PM.Matcher` / `Matchers` / `Content`, `PM.MVal`, `PM.Ctx`, `PM.Res`, `PM.Sem`).
+# Props/GenBridgeMatch.lean proves `PM.Matcher.run` (hand-written) equal to the generated `matcher_match`.
+#
+# Everything the translation ASSUMES is in the two tables below (the trusted base of this tie); the rest is syntax-directed:
+# `if` / early `return` / `raise` -> if-then-else / `.ok` / `.error ()`;  `a, b = call` -> `match call with | .error e => .error e
+# | .ok (a, b) => ..`;  `x = e`, `d.update(e)` -> shadowing `let`;  a `for` loop with early `return` -> a recursive helper over
+# the matcher list (member of one `mutual` block with the dispatcher) whose result is `.inl r` (returned `r` inside the loop)
+# or `.inr state` (the loop ended; `state` = the local dicts the body updates);  dynamic dispatch of `self._match` -> one
+# generated function per class + one dispatcher arm per constructor of `PM.Matcher`.
+
+# (1) REPRESENTATION: Python matcher class -> constructor(s) of `PM.Matcher`; dataclass fields in constructor order.
+#     `const`: a field that the constructor fixes to a value (the interpreter only ever builds `ValueMatcher(value=None)` and
+#     `ValueMatcher(value=())`);  `derived`: an `init=False` field computed in `__post_init__` (checked textually).
+#     `SequenceMatcher.tail_matcher: AnyMatcher | None` is carried as the optional NAME of that AnyMatcher (its only field),
+#     calls on it are dispatched statically to `AnyMatcher._match` (checked: AnyMatcher has no subclass in the module).
+MATCH_CLASSES = {
+    "AnyMatcher": {"fields": [], "ctors": [(".any", {})]},
+    "ValueMatcher": {"fields": [("value", "MVal")],
+                     "ctors": [(".valNone", {"value": "MVal.none"}), (".valEmpty", {"value": "(MVal.tup [])"})]},
+    "RegexMatcher": {"fields": [("_re_str", "Str")], "ctors": [(".regex", {})],
+                     "derived": {"pattern": ("_re_str", "object.__setattr__(self, 'pattern', re.compile(self._re_str))")}},
+    "VarMatcher": {"fields": [("var_name", "Str")], "ctors": [(".var", {})]},
+    "SequenceMatcher": {"fields": [("matchers", "Matchers"), ("tail_matcher", "OptAny")], "ctors": [(".seq", {})]},
+    "NodeMatcher": {"fields": [("types", "Types"), ("content", "Content")], "ctors": [(".node", {})]},
+}
+
+# (2) PRIMITIVES: Python idiom -> model-level term (what each row claims about CPython / pyoak is part of the trusted base)
+MATCH_PRIMITIVES = [
+    ("isinstance(v, ASTNode)",            "v is `MVal.node n` (narrowing `match`); as a Bool: `isASTNode v`"),
+    ("isinstance(v, Sequence)",           "v is `MVal.tup xs` (narrowing); str / bytes values are a listed don't-care of C08"),
+    ("isinstance(v, self.types)",         "v is `MVal.node n` and `types.any (PM.instOf n)`"),
+    ("a.is_equal(b)   (a: a node)",       "`nodeIsEqual S a b`: `S.ceq a b'` when b is a node b', else false (node.py: type test first)"),
+    ("a == b / a != b (field values)",    "`PM.pyEq S a b` (left operand first); on lengths: Nat equality"),
+    ("len(x), <, <=, >, >=",              "`List.length` / `PM.Matchers.length`, Nat order"),
+    ("dict(d) | {} | {k: v, **e} | d | e", "`d` | `[]` | `PM.Ctx.update [(k, v)] e` | `PM.Ctx.update d e`   (association lists, first entry wins)"),
+    ("d.update(e)   (d a LOCAL dict)",    "`let d := PM.Ctx.update d e`"),
+    ("k in d / k not in d / d[k]",        "`d.lookup k` is some / none / its value (only after a membership guard)"),
+    ("hasattr(n, f) / getattr(n, f)",     "`PM.getField n f` is some / its value (only after a hasattr guard)"),
+    ("str(v)",                            "`PM.MVal.strText v`"),
+    ("self.pattern.match(t) is not None", "`S.rx self._re_str t`   (`pattern = re.compile(_re_str)`; also its truthiness)"),
+    ("xs[n:] / xs[:n]  (xs a tuple value)", "`MVal.tup (xs.drop n)` / `MVal.tup (xs.take n)`"),
+    ("zip(self.matchers, xs, strict=False)", "lock-step recursion over `PM.Matchers` and the list, stops at the shorter one"),
+    ("for f, m in self.content",          "recursion over `PM.Content`"),
+    ("m.match(v, c)  (m a sub-matcher)",  "`matcher_match S m v (some c)` (the generated dispatcher); `ctx=None` -> `none`"),
+    ("raise <any exception>",             "`.error ()`"),
+    ("x is None / x is not None / truthiness of an Optional dataclass instance", "`Option` tests (narrowing `match`)"),
+]
+
+_M_LEAN_TY = {"MVal": "MVal", "Node": "Node", "ListMVal": "(List MVal)", "Ctx": "Ctx", "OptCtx": "(Option Ctx)", "Bool": "Bool",
+              "Nat": "Nat", "Str": "Str", "OptStr": "(Option Str)", "OptAny": "(Option (Option Str))", "AnyM": "(Option Str)",
+              "Matcher": "Matcher", "Matchers": "Matchers", "Content": "Content", "Types": "(List Str)", "Pair": "(Bool × Ctx)",
+              "Res": "Res", "Regex": None}
+_M_OPT = {"OptStr": "Str", "OptAny": "AnyM", "OptCtx": "Ctx"}
+_LEAN_KEYWORDS = {"at", "from", "fun", "end", "open", "match", "then", "else", "if", "do", "in", "let", "have", "show", "with", "by",
+                  "type", "Type", "def", "where", "for", "return", "mut", "instance", "class", "structure", "using", "local", "e", "r", "S"}
+
+HEADER_MATCH = """/- GENERATED by harness/py2lean_k.py (`generate_match`) from `BaseMatcher.match` and the `_match` methods of the matcher
+   classes of src/pyoak/match/pattern.py on every run of `./check C08`.  Do not edit: Props/GenBridgeMatch.lean proves the
+   hand-written model `PM.Matcher.run` equal to exactly these definitions (an OPTIONAL obligation, see
+   harness/kernels_tie.py).  Only the TYPES and the primitives listed in `MATCH_PRIMITIVES` (py2lean_k.py) are taken from
+   Model/Pattern.lean. -/
+import PyOak.Model.Pattern
+set_option linter.unusedVariables false
+namespace PyOak.GenK.PMatch
+open PyOak PyOak.PM
+
+/-- outcome of a `for` loop whose body may `return`: `.inl r` = the function returned `r` from inside the loop,
+`.inr s` = the loop ran to its end with the loop-carried locals `s`; `error` = an exception -/
+abbrev Loop (σ : Type) := Except Unit ((Bool × Ctx) ⊕ σ)
+
+/-- `isinstance(v, ASTNode)` -/
+def isASTNode : MVal → Bool
+  | .node _ => true
+  | _ => false
+
+/-- `isinstance(v, Sequence)` (tuples; str / bytes: don't care) -/
+def isSequence : MVal → Bool
+  | .tup _ => true
+  | _ => false
+
+/-- `a.is_equal(other)` for a node `a`: `type(other) is not type(self)` first, then the content ids -/
+def nodeIsEqual (S : Sem) (a : Node) (other : MVal) : Bool :=
+  match other with
+  | .node b => S.ceq a b
+  | _ => false
+"""
+
+
+def _ind(text: str, n: int = 2) -> str:
+    pad = " " * n
+    return "\n".join(pad + l if l else l for l in text.split("\n"))
+
+
+def _lean_name(py: str) -> str:
+    return py + "_" if py in _LEAN_KEYWORDS else py
+
+
+class MFn:
+    """translation of one method body (or one loop body) of pattern.py into a Lean term of type `Res` (resp. `Loop σ`)"""
+
+    def __init__(self, where: str, cls: str | None, counter: list, loops: list):
+        self.where = where
+        self.cls = cls                  # the matcher class whose `_match` this is (None: BaseMatcher.match)
+        self.env: dict[str, tuple[str, str]] = {}       # python local -> (lean term, type)
+        self.selfenv: dict[str, tuple[str, str]] = {}   # self.<attr> -> (lean term, type)
+        self.local_dicts: set[str] = set()
+        self.facts: dict[tuple, tuple[str, str]] = {}
+        self.counter = counter          # shared fresh-name counter
+        self.loops = loops              # loop helpers generated for this method (appended)
+        self.in_loop = None             # (loop name, fallthrough continuation) inside a loop body
+        self.self_match = None          # BaseMatcher.match: the lean name of the `self._match` parameter
+
+    # ---------------------------------------------------------------- helpers
+    def bad(self, node, why=""):
+        txt = ast.unparse(node) if isinstance(node, ast.AST) else str(node)
+        line = f" (line {node.lineno})" if isinstance(node, ast.AST) and hasattr(node, "lineno") else ""
+        raise Unsupported(self.where, f"{why or 'construct'}{line}: {txt}"[:240])
+
+    def fresh(self, base: str) -> str:
+        self.counter[0] += 1
+        return f"{base}_{self.counter[0]}"
+
+    def snap(self):
+        return dict(self.env), dict(self.selfenv), set(self.local_dicts), dict(self.facts)
+
+    def restore(self, s):
+        self.env, self.selfenv, self.local_dicts, self.facts = dict(s[0]), dict(s[1]), set(s[2]), dict(s[3])
+
+    def bind(self, py: str, ty: str, term: str | None = None) -> str:
+        """(re)binds a python local; facts that mention the shadowed lean name are dropped"""
+        term = term or _lean_name(py)
+        import re as _re
+        self.facts = {k: v for k, v in self.facts.items() if not any(_re.search(rf"(?<![\w.]){_re.escape(term)}(?![\w])", str(x)) for x in k[1:])}
+        self.env[py] = (term, ty)
+        return term
+
+    def ret(self, pair: str) -> str:
+        return f".ok (.inl {pair})" if self.in_loop else f".ok {pair}"
+
+    def as_mval(self, t: str, ty: str, node) -> str:
+        if ty == "MVal":
+            return t
+        if ty == "ListMVal":
+            return f"(MVal.tup {t})"
+        if ty == "Node":
+            return f"(MVal.node {t})"
+        self.bad(node, f"a value of type {ty} used as a field value")
+
+    def is_self_attr(self, e) -> str | None:
+        if isinstance(e, ast.Attribute) and isinstance(e.value, ast.Name) and e.value.id == "self":
+            return e.attr
+        return None
+
+    def subject(self, e):
+        """a name or self.<attr> -> (kind, key, term, type)"""
+        if isinstance(e, ast.Name) and e.id in self.env:
+            return ("env", e.id) + self.env[e.id]
+        a = self.is_self_attr(e)
+        if a is not None and a in self.selfenv:
+            return ("self", a) + self.selfenv[a]
+        return None
+
+    def is_regex_match(self, e):
+        """`self.pattern.match(T)` -> T"""
+        if isinstance(e, ast.Call) and isinstance(e.func, ast.Attribute) and e.func.attr == "match" and len(e.args) == 1 and not e.keywords:
+            a = self.is_self_attr(e.func.value)
+            if a is not None and a in self.selfenv and self.selfenv[a][1] == "Regex":
+                t, ty = self.expr(e.args[0])
+                if ty != "Str":
+                    self.bad(e, "regex matched against a non-string")
+                return f"(S.rx {self.selfenv[a][0]} {t})"
+        return None
+
+    # ---------------------------------------------------------------- expressions -> (term, type)
+    def expr(self, e):
+        if isinstance(e, ast.Name):
+            if e.id in self.env:
+                return self.env[e.id]
+            self.bad(e, "unknown name (not assigned on this path)")
+        a = self.is_self_attr(e)
+        if a is not None:
+            if a in self.selfenv:
+                if self.selfenv[a][1] == "Regex":
+                    self.bad(e, "the compiled regex used other than through `.match(text)`")
+                return self.selfenv[a]
+            self.bad(e, "unknown attribute of self")
+        if isinstance(e, ast.Constant):
+            if e.value is True:
+                return "true", "Bool"
+            if e.value is False:
+                return "false", "Bool"
+            if isinstance(e.value, int) and not isinstance(e.value, bool) and e.value >= 0:
+                return f"({e.value} : Nat)", "Nat"
+            self.bad(e, "constant")
+        if isinstance(e, ast.UnaryOp) and isinstance(e.op, ast.Not):
+            return f"(!{self.boolean(e.operand)})", "Bool"
+        if isinstance(e, ast.BoolOp):
+            op = " && " if isinstance(e.op, ast.And) else " || "
+            return "(" + op.join(self.boolean(v) for v in e.values) + ")", "Bool"
+        if isinstance(e, ast.Compare) and len(e.ops) == 1:
+            return self.compare(e, e.left, e.ops[0], e.comparators[0])
+        if isinstance(e, ast.Tuple) and len(e.elts) == 2:
+            a0, t0 = self.expr(e.elts[0])
+            a1, t1 = self.expr(e.elts[1])
+            if (t0, t1) != ("Bool", "Ctx"):
+                self.bad(e, f"tuple of ({t0}, {t1}) (expected (bool, dict))")
+            return f"({a0}, {a1})", "Pair"
+        if isinstance(e, ast.Dict):
+            return self.dict_lit(e), "Ctx"
+        if isinstance(e, ast.BinOp) and isinstance(e.op, ast.BitOr):
+            a0, t0 = self.expr(e.left)
+            a1, t1 = self.expr(e.right)
+            if (t0, t1) != ("Ctx", "Ctx"):
+                self.bad(e, "`|` between non-dicts")
+            return f"(Ctx.update {a0} {a1})", "Ctx"
+        if isinstance(e, ast.Subscript):
+            return self.subscript(e)
+        if isinstance(e, ast.Call):
+            return self.call(e)
+        if isinstance(e, ast.IfExp):
+            c = self.boolean(e.test)
+            a0, t0 = self.expr(e.body)
+            a1, t1 = self.expr(e.orelse)
+            if t0 != t1:
+                self.bad(e, "conditional expression with branches of different types")
+            return f"(if {c} then {a0} else {a1})", t0
+        self.bad(e, "expression")
+
+    def boolean(self, e) -> str:
+        rx = self.is_regex_match(e)
+        if rx is not None:           # a Match object is always truthy
+            return rx
+        t, ty = self.expr(e)
+        if ty == "Bool":
+            return t
+        if ty == "OptAny":           # Optional dataclass instance (no __bool__ / __len__: checked): truthy iff not None
+            return f"{t}.isSome"
+        self.bad(e, f"truthiness of a value of type {ty} is not translated")
+
+    def dict_lit(self, e: ast.Dict) -> str:
+        acc = None
+        for k, v in zip(e.keys, e.values):
+            if k is None:
+                t, ty = self.expr(v)
+                if ty != "Ctx":
+                    self.bad(e, "`**` of a non-dict")
+                item = t
+            else:
+                kt, kty = self.expr(k)
+                if kty != "Str":
+                    self.bad(k, f"dict key of type {kty} (an Optional key must be narrowed by `is None` first)")
+                vt, vty = self.expr(v)
+                item = f"[({kt}, {self.as_mval(vt, vty, v)})]"
+            acc = item if acc is None else f"(Ctx.update {acc} {item})"
+        return acc if acc is not None else "[]"
+
+    def subscript(self, e: ast.Subscript):
+        base, bty = self.expr(e.value)
+        if bty == "Ctx":
+            k, kty = self.expr(e.slice)
+            f = self.facts.get(("lookup", base, k))
+            if f is None:
+                self.bad(e, "dict subscript without a preceding membership guard (KeyError possible)")
+            return f
+        if bty == "ListMVal" and isinstance(e.slice, ast.Slice) and e.slice.step is None:
+            lo, up = e.slice.lower, e.slice.upper
+            if lo is not None and up is None:
+                n, nty = self.expr(lo)
+                if nty == "Nat":
+                    return f"(MVal.tup ({base}.drop {n}))", "MVal"
+            if up is not None and lo is None:
+                n, nty = self.expr(up)
+                if nty == "Nat":
+                    return f"(MVal.tup ({base}.take {n}))", "MVal"
+        self.bad(e, "subscript")
+
+    def compare(self, e, l, op, r):
+        if isinstance(op, (ast.Is, ast.IsNot)):
+            if not (isinstance(r, ast.Constant) and r.value is None):
+                self.bad(e, "`is` between values (object identity is not modelled)")
+            rx = self.is_regex_match(l)
+            if rx is not None:
+                return (f"(!{rx})" if isinstance(op, ast.Is) else rx), "Bool"
+            t, ty = self.expr(l)
+            if ty in _M_OPT:
+                return (f"{t}.isNone" if isinstance(op, ast.Is) else f"{t}.isSome"), "Bool"
+            if ty in ("Str", "AnyM", "Ctx"):      # narrowed
+                return ("false" if isinstance(op, ast.Is) else "true"), "Bool"
+            self.bad(e, f"None test of a value of type {ty}")
+        if isinstance(op, (ast.In, ast.NotIn)):
+            k, kty = self.expr(l)
+            d, dty = self.expr(r)
+            if (kty, dty) != ("Str", "Ctx"):
+                self.bad(e, "membership test other than <str> in <dict>")
+            return (f"({d}.lookup {k}).isSome" if isinstance(op, ast.In) else f"({d}.lookup {k}).isNone"), "Bool"
+        a, ta = self.expr(l)
+        b, tb = self.expr(r)
+        vals = ("MVal", "ListMVal", "Node")
+        if isinstance(op, (ast.Eq, ast.NotEq)):
+            if ta in vals and tb in vals:
+                t = f"(pyEq S {self.as_mval(a, ta, l)} {self.as_mval(b, tb, r)})"
+            elif ta == tb and ta in ("Nat", "Bool", "Str"):
+                t = f"({a} == {b})"
+            else:
+                self.bad(e, f"== between {ta} and {tb}")
+            return (t if isinstance(op, ast.Eq) else f"(!{t})"), "Bool"
+        sym = {ast.Lt: "<", ast.LtE: "≤", ast.Gt: ">", ast.GtE: "≥"}.get(type(op))
+        if sym is not None and (ta, tb) == ("Nat", "Nat"):
+            return f"(decide ({a} {sym} {b}))", "Bool"
+        self.bad(e, f"comparison {type(op).__name__} between {ta} and {tb}")
+
+    def call(self, e: ast.Call):
+        f = e.func
+        if isinstance(f, ast.Name) and not e.keywords:
+            if f.id == "len" and len(e.args) == 1:
+                t, ty = self.expr(e.args[0])
+                if ty == "ListMVal":
+                    return f"{t}.length", "Nat"
+                if ty == "Matchers":
+                    return f"(Matchers.length {t})", "Nat"
+                self.bad(e, f"len of a value of type {ty} (a field value must be narrowed by isinstance(.., Sequence) first)")
+            if f.id == "dict" and len(e.args) == 1:
+                t, ty = self.expr(e.args[0])
+                if ty != "Ctx":
+                    self.bad(e, "dict() of a non-dict")
+                return t, "Ctx"
+            if f.id == "dict" and not e.args:
+                return "[]", "Ctx"
+            if f.id == "str" and len(e.args) == 1:
+                t, ty = self.expr(e.args[0])
+                if ty != "MVal":
+                    self.bad(e, f"str() of a value of type {ty}")
+                return f"(MVal.strText {t})", "Str"
+            if f.id == "isinstance" and len(e.args) == 2:
+                t, ty = self.expr(e.args[0])
+                k = e.args[1]
+                if ty == "MVal" and isinstance(k, ast.Name) and k.id == "ASTNode":
+                    return f"(isASTNode {t})", "Bool"
+                if ty == "MVal" and isinstance(k, ast.Name) and k.id == "Sequence":
+                    return f"(isSequence {t})", "Bool"
+                self.bad(e, "isinstance test (supported: ASTNode, Sequence; self.types only as an `if` test)")
+            if f.id == "hasattr" and len(e.args) == 2:
+                t, ty = self.expr(e.args[0])
+                n, nty = self.expr(e.args[1])
+                if (ty, nty) != ("Node", "Str"):
+                    self.bad(e, "hasattr of a value that is not known to be a node")
+                return f"(getField {t} {n}).isSome", "Bool"
+            if f.id == "getattr" and len(e.args) == 2:
+                t, ty = self.expr(e.args[0])
+                n, nty = self.expr(e.args[1])
+                fct = self.facts.get(("getattr", t, n))
+                if fct is None:
+                    self.bad(e, "getattr without a preceding hasattr guard (AttributeError possible)")
+                return fct
+            if f.id == "cast" and len(e.args) == 2:
+                return self.expr(e.args[1])
+        if isinstance(f, ast.Attribute):
+            if f.attr == "_match" and isinstance(f.value, ast.Name) and f.value.id == "self" and self.self_match and len(e.args) == 2 and not e.keywords:
+                v, vty = self.expr(e.args[0])
+                c, cty = self.expr(e.args[1])
+                if cty != "Ctx":
+                    self.bad(e, f"self._match called with a context of type {cty} (None not excluded)")
+                return f"({self.self_match} {self.as_mval(v, vty, e.args[0])} {c})", "Res"
+            if f.attr == "is_equal" and len(e.args) == 1 and not e.keywords:
+                a, ta = self.expr(f.value)
+                b, tb = self.expr(e.args[0])
+                if ta != "Node":
+                    self.bad(e, "is_equal on a receiver that is not known to be a node (narrow it with isinstance(.., ASTNode))")
+                return f"(nodeIsEqual S {a} {self.as_mval(b, tb, e.args[0])})", "Bool"
+            if f.attr == "match" and len(e.args) in (1, 2) and not e.keywords:
+                if self.is_regex_match(e) is not None:
+                    self.bad(e, "a regex Match object used as a value")
+                m, mty = self.expr(f.value)
+                v, vty = self.expr(e.args[0])
+                v = self.as_mval(v, vty, e.args[0])
+                if len(e.args) == 2:
+                    c, cty = self.expr(e.args[1])
+                    if cty == "Ctx":
+                        c = f"(some {c})"
+                    elif cty != "OptCtx":
+                        self.bad(e, "context argument")
+                else:
+                    c = "none"
+                if mty == "Matcher":
+                    if not self.in_loop:
+                        self.bad(e, "`.match` on a sub-matcher outside a loop over the sub-matchers")
+                    return f"(matcher_match S {m} {v} {c})", "Res"
+                if mty == "AnyM":
+                    return f"(BaseMatcher_match {m} (fun value ctx => AnyMatcher__match S value ctx) {v} {c})", "Res"
+                self.bad(e, f"`.match` on a receiver of type {mty} (an Optional matcher must be narrowed first)")
+        self.bad(e, "call")
+
+    # ---------------------------------------------------------------- narrowing tests
+    def narrowing(self, test):
+        """-> None | dict(positive, scrut, pat, apply(), resid)   `apply` installs the narrowed binding / fact"""
+        pos = True
+        while isinstance(test, ast.UnaryOp) and isinstance(test.op, ast.Not):
+            pos, test = not pos, test.operand
+        if isinstance(test, ast.Call) and isinstance(test.func, ast.Name) and len(test.args) == 2 and not test.keywords:
+            fn, a0, a1 = test.func.id, test.args[0], test.args[1]
+            if fn == "isinstance":
+                sub = self.subject(a0)
+                if sub is None or sub[3] != "MVal":
+                    return None
+                kind, key, cur, _ = sub
+                nv = self.fresh(cur)
+                if isinstance(a1, ast.Name) and a1.id in ("ASTNode", "Sequence"):
+                    ctor, nty = (".node", "Node") if a1.id == "ASTNode" else (".tup", "ListMVal")
+                    return {"positive": pos, "scrut": cur, "pat": f"{ctor} {nv}", "other": "_", "resid": None,
+                            "apply": lambda: self._narrow(kind, key, nv, nty)}
+                ts = self.subject(a1)
+                if ts is not None and ts[3] == "Types":
+                    return {"positive": pos, "scrut": cur, "pat": f".node {nv}", "other": "_", "resid": f"({ts[2]}.any (instOf {nv}))",
+                            "apply": lambda: self._narrow(kind, key, nv, "Node")}
+                return None
+            if fn == "hasattr":
+                t, ty = self.expr(a0)
+                n, nty = self.expr(a1)
+                if (ty, nty) != ("Node", "Str"):
+                    self.bad(test, "hasattr of a value that is not known to be a node")
+                nv = self.fresh("attr")
+                return {"positive": pos, "scrut": f"(getField {t} {n})", "pat": f"some {nv}", "other": "none", "resid": None,
+                        "apply": lambda: self.facts.__setitem__(("getattr", t, n), (nv, "MVal"))}
+        if isinstance(test, ast.Compare) and len(test.ops) == 1:
+            op, l, r = test.ops[0], test.left, test.comparators[0]
+            if isinstance(op, (ast.Is, ast.IsNot)) and isinstance(r, ast.Constant) and r.value is None:
+                sub = self.subject(l)
+                if sub is not None and sub[3] in _M_OPT:
+                    kind, key, cur, ty = sub
+                    nv = self.fresh(cur)
+                    p = pos if isinstance(op, ast.IsNot) else not pos
+                    return {"positive": p, "scrut": cur, "pat": f"some {nv}", "other": "none", "resid": None,
+                            "apply": lambda: self._narrow(kind, key, nv, _M_OPT[ty])}
+                return None
+            if isinstance(op, (ast.In, ast.NotIn)):
+                k, kty = self.expr(l)
+                d, dty = self.expr(r)
+                if (kty, dty) != ("Str", "Ctx"):
+                    return None
+                nv = self.fresh("item")
+                p = pos if isinstance(op, ast.In) else not pos
+                return {"positive": p, "scrut": f"({d}.lookup {k})", "pat": f"some {nv}", "other": "none", "resid": None,
+                        "apply": lambda: self.facts.__setitem__(("lookup", d, k), (nv, "MVal"))}
+        sub = self.subject(test)
+        if sub is not None and sub[3] == "OptAny":        # truthiness of an Optional dataclass instance
+            kind, key, cur, ty = sub
+            nv = self.fresh(cur)
+            return {"positive": pos, "scrut": cur, "pat": f"some {nv}", "other": "none", "resid": None,
+                    "apply": lambda: self._narrow(kind, key, nv, _M_OPT[ty])}
+        return None
+
+    def _narrow(self, kind, key, term, ty):
+        if kind == "env":
+            self.env[key] = (term, ty)
+        else:
+            self.selfenv[key] = (term, ty)
+
+    # ---------------------------------------------------------------- statements -> term
+    def block(self, stmts, k) -> str:
+        """k: None (falling off the end is outside the subset) or a thunk producing the continuation in the CURRENT env"""
+        if not stmts:
+            if k is None:
+                raise Unsupported(self.where, "a path falls off the end of the method (implicit `return None`)")
+            return k()
+        s, rest = stmts[0], stmts[1:]
+        if isinstance(s, ast.Expr) and isinstance(s.value, ast.Constant) and isinstance(s.value.value, str):
+            return self.block(rest, k)
+        if isinstance(s, ast.Pass):
+            return self.block(rest, k)
+        if isinstance(s, ast.Return):
+            if s.value is None:
+                self.bad(s, "bare return")
+            t, ty = self.expr(s.value)
+            if ty == "Pair":
+                return self.ret(t)
+            if ty == "Res":
+                if not self.in_loop:
+                    return t
+                return f"(match {t} with\n  | .error e => .error e\n  | .ok r => .ok (.inl r))"
+            self.bad(s, f"return of a value of type {ty}")
+        if isinstance(s, ast.Raise):
+            return ".error ()"
+        if isinstance(s, ast.Continue) and self.in_loop:
+            return self.in_loop[1]()
+        if isinstance(s, ast.If):
+            return self.stmt_if(s, rest, k)
+        if isinstance(s, ast.AnnAssign) and isinstance(s.target, ast.Name) and s.value is not None:
+            return self.assign(s, s.target, s.value, rest, k)
+        if isinstance(s, ast.Assign) and len(s.targets) == 1:
+            return self.assign(s, s.targets[0], s.value, rest, k)
+        if isinstance(s, ast.Expr) and isinstance(s.value, ast.Call) and isinstance(s.value.func, ast.Attribute) \
+                and s.value.func.attr == "update" and isinstance(s.value.func.value, ast.Name) and len(s.value.args) == 1 and not s.value.keywords:
+            d = s.value.func.value.id
+            if d not in self.env or self.env[d][1] != "Ctx":
+                self.bad(s, "update of something that is not a dict")
+            if d not in self.local_dicts:
+                self.bad(s, "update of a dict that was not created in this method (the caller would see the mutation)")
+            cur = self.env[d][0]
+            t, ty = self.expr(s.value.args[0])
+            if ty != "Ctx":
+                self.bad(s, "update with a non-dict")
+            nm = self.bind(d, "Ctx")
+            return f"(let {nm} : Ctx := (Ctx.update {cur} {t});\n{self.block(rest, k)})"
+        if isinstance(s, ast.For):
+            return self.stmt_for(s, rest, k)
+        self.bad(s, "statement")
+
+    def assign(self, s, tg, value, rest, k) -> str:
+        if isinstance(tg, ast.Name):
+            t, ty = self.expr(value)
+            if ty == "Res":
+                self.bad(s, "a (bool, dict) result bound to one name")
+            lty = _M_LEAN_TY.get(ty)
+            if lty is None:
+                self.bad(s, f"assignment of a value of type {ty}")
+            is_new_dict = isinstance(value, ast.Dict) or (isinstance(value, ast.Call) and isinstance(value.func, ast.Name) and value.func.id == "dict") \
+                or (isinstance(value, ast.BinOp))
+            nm = self.bind(tg.id, ty)
+            if ty == "Ctx" and is_new_dict:
+                self.local_dicts.add(tg.id)
+            else:
+                self.local_dicts.discard(tg.id)
+            return f"(let {nm} : {lty} := {t};\n{self.block(rest, k)})"
+        if isinstance(tg, ast.Tuple) and len(tg.elts) == 2 and all(isinstance(x, ast.Name) for x in tg.elts):
+            t, ty = self.expr(value)
+            names = []
+            for x, xt in zip(tg.elts, ("Bool", "Ctx")):
+                if x.id == "_":
+                    names.append("_")
+                else:
+                    names.append(self.bind(x.id, xt))
+                    self.local_dicts.discard(x.id)
+            body = self.block(rest, k)
+            if ty == "Res":
+                return f"(match {t} with\n  | .error e => .error e\n  | .ok ({names[0]}, {names[1]}) =>\n{_ind(body, 4)})"
+            if ty == "Pair":
+                return f"(match {t} with\n  | ({names[0]}, {names[1]}) =>\n{_ind(body, 4)})"
+            self.bad(s, f"unpacking of a value of type {ty}")
+        self.bad(s, "assignment target")
+
+    def stmt_if(self, s: ast.If, rest, k) -> str:
+        kk = (lambda: self.block(rest, k)) if (rest or k is not None) else None
+        # default-argument normalisation: `if x is None: x = E`
+        if not s.orelse and len(s.body) == 1 and isinstance(s.body[0], ast.Assign) and len(s.body[0].targets) == 1 \
+                and isinstance(s.body[0].targets[0], ast.Name) and isinstance(s.test, ast.Compare) and len(s.test.ops) == 1 \
+                and isinstance(s.test.ops[0], ast.Is) and isinstance(s.test.left, ast.Name) and s.test.left.id == s.body[0].targets[0].id \
+                and isinstance(s.test.comparators[0], ast.Constant) and s.test.comparators[0].value is None \
+                and s.test.left.id in self.env and self.env[s.test.left.id][1] in _M_OPT:
+            x = s.test.left.id
+            cur, oty = self.env[x]
+            t, ty = self.expr(s.body[0].value)
+            if ty != _M_OPT[oty]:
+                self.bad(s, "default value of another type")
+            nv = self.fresh(cur)
+            nm = self.bind(x, ty)
+            if ty == "Ctx":
+                self.local_dicts.discard(x)
+            return f"(let {nm} : {_M_LEAN_TY[ty]} := (match {cur} with | none => {t} | some {nv} => {nv});\n{self.block(rest, k)})"
+        nar = self.narrowing(s.test)
+        base = self.snap()
+        if nar is not None:
+            pos_stmts, neg_stmts = (s.body, s.orelse) if nar["positive"] else (s.orelse, s.body)
+            nar["apply"]()
+            narrowed = self.snap()
+            a = self.block(pos_stmts, kk)
+            self.restore(base)
+            b = self.block(neg_stmts, kk)
+            if nar["resid"] is not None:
+                # the residual test failed: the un-narrowed branch, but the subject IS a node there; neg_stmts / rest must
+                # not depend on that (they are translated in the base env)
+                self.restore(base)
+                b2 = self.block(neg_stmts, kk)
+                a = f"(if {nar['resid']} then\n{_ind(a)}\nelse\n{_ind(b2)})"
+            self.restore(base)
+            return f"(match {nar['scrut']} with\n  | {nar['pat']} =>\n{_ind(a, 4)}\n  | {nar['other']} =>\n{_ind(b, 4)})"
+        c = self.boolean(s.test)
+        a = self.block(s.body, kk)
+        self.restore(base)
+        b = self.block(s.orelse, kk)
+        self.restore(base)
+        return f"(if {c} then\n{_ind(a)}\nelse\n{_ind(b)})"
+
+    def stmt_for(self, s: ast.For, rest, k) -> str:
+        if self.in_loop:
+            self.bad(s, "nested loop")
+        if s.orelse:
+            self.bad(s, "for/else")
+        # ---- what is iterated
+        it = s.iter
+        zipped = None
+        if isinstance(it, ast.Call) and isinstance(it.func, ast.Name) and it.func.id == "zip" and len(it.args) == 2:
+            kws = {kw.arg: kw.value for kw in it.keywords}
+            if set(kws) - {"strict"} or ("strict" in kws and not (isinstance(kws["strict"], ast.Constant) and kws["strict"].value is False)):
+                self.bad(it, "zip keywords (only strict=False)")
+            it, zipped = it.args[0], it.args[1]
+        coll, cty = self.expr(it)
+        if cty not in ("Matchers", "Content") or (cty == "Content" and zipped is not None) or (cty == "Matchers" and zipped is None):
+            self.bad(s, "loop shape (expected `for m, v in zip(self.matchers, <tuple value>, strict=False)` or `for f, m in self.content`)")
+        if not (isinstance(s.target, ast.Tuple) and len(s.target.elts) == 2 and all(isinstance(x, ast.Name) for x in s.target.elts)):
+            self.bad(s.target, "loop target (expected two names)")
+        t0, t1 = (_lean_name(x.id) for x in s.target.elts)
+        zt = None
+        if zipped is not None:
+            zt, zty = self.expr(zipped)
+            if zty != "ListMVal":
+                self.bad(zipped, f"zip over a value of type {zty} (narrow it with isinstance(.., Sequence) first)")
+        # ---- loop-carried state: local names (re)bound in the body that exist before the loop
+        assigned, used_names, used_attrs = [], set(), set()
+        for st in s.body:
+            for n in ast.walk(st):
+                if isinstance(n, ast.Name):
+                    (assigned.append(n.id) if isinstance(n.ctx, ast.Store) else used_names.add(n.id))
+                if isinstance(n, ast.Call) and isinstance(n.func, ast.Attribute) and n.func.attr == "update" and isinstance(n.func.value, ast.Name):
+                    assigned.append(n.func.value.id)
+                a = self.is_self_attr(n)
+                if a is not None:
+                    used_attrs.add(a)
+        targets = {x.id for x in s.target.elts}
+        for x in targets:
+            if x in self.env:        # after the loop Python would see the last element, the translation the old binding
+                self.bad(s.target, f"loop target `{x}` shadows a local of the method")
+        state = [x for x in self.env if x in assigned and x not in targets]
+        carried = [x for x in self.env if x in used_names and x not in state and x not in targets]
+        cattrs = [a for a in self.selfenv if a in used_attrs and self.selfenv[a][1] != "Regex"]
+        for x in state + carried:
+            if _M_LEAN_TY.get(self.env[x][1]) is None:
+                self.bad(s, f"loop uses `{x}` of type {self.env[x][1]}")
+        idx = len(self.loops) + 1
+        lname = f"{self.cls}__match_loop_{idx}"
+        # ---- the body, in a sub-translator
+        sub = MFn(f"{self.where} (loop body)", self.cls, self.counter, self.loops)
+        sub.self_match = None
+        params = []          # (lean name, lean type) after the structural argument(s)
+        for a in cattrs:
+            term, ty = self.selfenv[a]
+            sub.selfenv[a] = (term, ty)
+            params.append((term, _M_LEAN_TY[ty]))
+        for x in carried:
+            term, ty = self.env[x]
+            sub.env[x] = (term, ty)
+            params.append((term, _M_LEAN_TY[ty]))
+        state_terms = []
+        for x in state:
+            term, ty = self.env[x]
+            nm = _lean_name(x)
+            sub.env[x] = (nm, ty)
+            if x in self.local_dicts:
+                sub.local_dicts.add(x)
+            state_terms.append((nm, _M_LEAN_TY[ty], term))
+        carried_names = [p[0] for p in params]
+        st_names = [p[0] for p in state_terms]
+        st_tuple = "(" + ", ".join(st_names) + ")" if len(st_names) != 1 else st_names[0]
+        st_type = "(" + " × ".join(p[1] for p in state_terms) + ")" if len(state_terms) > 1 else (state_terms[0][1] if state_terms else "Unit")
+        if cty == "Matchers":
+            sub.env[s.target.elts[0].id] = (t0, "Matcher")
+            sub.env[s.target.elts[1].id] = (t1, "MVal")
+            again = lambda: f"({lname} S rest_ vals_ {' '.join(carried_names + [sub.env[x][0] for x in state])})".replace("  ", " ")
+        else:
+            sub.env[s.target.elts[0].id] = (t0, "Str")
+            sub.env[s.target.elts[1].id] = (t1, "Matcher")
+            again = lambda: f"({lname} S rest_ {' '.join(carried_names + [sub.env[x][0] for x in state])})".replace("  ", " ")
+        sub.in_loop = (lname, again)
+        body = sub.block(s.body, again)
+        done = f".ok (.inr {st_tuple})"
+        tail_pats = ", ".join(carried_names + st_names)
+        sep = ", " if tail_pats else ""
+        arg_tys = [p[1] for p in params] + [p[1] for p in state_terms]
+        if cty == "Matchers":
+            sig = " → ".join(["Matchers", "(List MVal)"] + arg_tys + [f"Loop {st_type}"])
+            arms = (f"  | .nil, _{sep}{tail_pats} => {done}\n  | .cons _ _, []{sep}{tail_pats} => {done}\n"
+                    f"  | .cons {t0} rest_, {t1} :: vals_{sep}{tail_pats} =>\n{_ind(body, 4)}")
+            clos_tys = ["(List MVal)"] + arg_tys
+        else:
+            sig = " → ".join(["Content"] + arg_tys + [f"Loop {st_type}"])
+            arms = (f"  | .nil{sep}{tail_pats} => {done}\n"
+                    f"  | .cons {t0} {t1} rest_{sep}{tail_pats} =>\n{_ind(body, 4)}")
+            clos_tys = arg_tys
+        doc = ast.unparse(ast.For(target=s.target, iter=s.iter, body=[ast.Expr(ast.Constant(...))], orelse=[], lineno=0, col_offset=0)).split("\n")[0]
+        self.loops.append({"name": lname, "def": f"/-- `{doc}` of `{self.cls}._match` -/\ndef {lname} (S : Sem) : {sig}\n{arms}",
+                           "param": f"loop_{idx}", "ptype": " → ".join(clos_tys + [f"Loop {st_type}"]), "coll": coll, "nargs": len(clos_tys)})
+        # ---- the call, and what follows the loop
+        call_args = ([zt] if zt is not None else []) + carried_names + [p[2] for p in state_terms]
+        for x in state:
+            self.bind(x, self.env[x][1])
+        after = self.block(rest, k)
+        return (f"(match (loop_{idx} {' '.join(call_args)}) with\n  | .error e => .error e\n  | .ok (.inl r) => {self.ret('r')}\n"
+                f"  | .ok (.inr {st_tuple}) =>\n{_ind(after, 4)})")
+
+
+def _method(cls: ast.ClassDef, name: str):
+    return next((x for x in cls.body if isinstance(x, ast.FunctionDef) and x.name == name), None)
+
+
+def _class_fields(cls: ast.ClassDef) -> list[str]:
+    return [st.target.id for st in cls.body if isinstance(st, ast.AnnAssign) and isinstance(st.target, ast.Name)]
+
+
+def generate_match(src: Path) -> str:
+    """OPTIONAL kernel of C08: `BaseMatcher.match` + `_match` of every matcher class"""
+    pk = K(src / "pyoak" / "match" / "pattern.py")
+    base = pk.classes.get("BaseMatcher")
+    if base is None:
+        raise Unsupported("BaseMatcher", "class not found")
+    if _class_fields(base) != ["name"]:
+        raise Unsupported("BaseMatcher", f"fields {_class_fields(base)} (expected ['name'])")
+
+    def bases(c):
+        return [b.id for b in c.bases if isinstance(b, ast.Name)] + [ast.unparse(b) for b in c.bases if not isinstance(b, ast.Name)]
+    family = {"BaseMatcher"}
+    changed = True
+    while changed:
+        changed = False
+        for n, c in pk.classes.items():
+            if n not in family and any(b in family for b in bases(c)):
+                family.add(n)
+                changed = True
+    subs = family - {"BaseMatcher"}
+    if subs != set(MATCH_CLASSES):
+        raise Unsupported("pattern.py", f"matcher classes {sorted(subs)} (the model has constructors for {sorted(MATCH_CLASSES)})")
+    for n in subs:
+        c = pk.classes[n]
+        if bases(c) != ["BaseMatcher"]:
+            raise Unsupported(n, f"bases {bases(c)} (expected a direct subclass of BaseMatcher)")
+        spec = MATCH_CLASSES[n]
+        want = [f for f, _ in spec["fields"]] + list(spec.get("derived", {}))
+        if _class_fields(c) != want:
+            raise Unsupported(n, f"fields {_class_fields(c)} (expected {want})")
+        for special in ("match", "__bool__", "__len__", "__eq__", "__getattribute__", "__getattr__"):
+            if _method(c, special) is not None:
+                raise Unsupported(n, f"defines {special}")
+        for d, (_src_field, text) in spec.get("derived", {}).items():
+            pi = _method(c, "__post_init__")
+            got = None if pi is None else "\n".join(ast.unparse(x) for x in pi.body)
+            if got != text:
+                raise Unsupported(f"{n}.__post_init__", f"`{d}` is not set by exactly `{text}`: {got!r}"[:240])
+    out = [HEADER_MATCH]
+    # ---- BaseMatcher.match
+    fn = _method(base, "match")
+    if fn is None:
+        raise Unsupported("BaseMatcher.match", "method not found")
+    ps = [a.arg for a in fn.args.args]
+    if len(ps) != 3 or fn.args.vararg or fn.args.kwarg or fn.args.kwonlyargs or len(fn.args.defaults) != 1 \
+            or not (isinstance(fn.args.defaults[0], ast.Constant) and fn.args.defaults[0].value is None):
+        raise Unsupported("BaseMatcher.match", "expects (self, value, ctx=None)")
+    if fn.decorator_list:
+        raise Unsupported("BaseMatcher.match", "decorated")
+    t = MFn("BaseMatcher.match", None, [0], [])
+    t.self_match = "self__match"
+    t.selfenv["name"] = ("self_name", "OptStr")
+    v, c = _lean_name(ps[1]), _lean_name(ps[2])
+    t.env[ps[1]] = (v, "MVal")
+    t.env[ps[2]] = (c, "OptCtx")
+    body = t.block(fn.body, None)
+    out.append("/-- `BaseMatcher.match`; `self._match` is the parameter `self__match` (dispatched by `matcher_match` below) -/\n"
+               f"def BaseMatcher_match (self_name : Option Str) (self__match : MVal → Ctx → Res) ({v} : MVal) ({c} : Option Ctx) : Res :=\n"
+               f"{_ind(body)}\n")
+    # ---- the `_match` methods
+    arms, loop_defs = [], []
+    for n, spec in MATCH_CLASSES.items():
+        cdef = pk.classes[n]
+        fn = _method(cdef, "_match")
+        if fn is None:
+            raise Unsupported(f"{n}._match", "method not found")
+        ps = [a.arg for a in fn.args.args]
+        if len(ps) != 3 or fn.args.vararg or fn.args.kwarg or fn.args.kwonlyargs or fn.args.defaults or fn.decorator_list:
+            raise Unsupported(f"{n}._match", "expects (self, value, ctx)")
+        loops: list = []
+        t = MFn(f"{n}._match", n, [0], loops)
+        fparams = []
+        for f, ty in spec["fields"]:
+            t.selfenv[f] = (f"self_{f}", ty)
+            fparams.append(f"(self_{f} : {_M_LEAN_TY[ty]})")
+        for d, (src_field, _text) in spec.get("derived", {}).items():
+            t.selfenv[d] = (f"self_{src_field}", "Regex")
+        v, c = _lean_name(ps[1]), _lean_name(ps[2])
+        t.env[ps[1]] = (v, "MVal")
+        t.env[ps[2]] = (c, "Ctx")
+        body = t.block(fn.body, None)
+        lparams = [f"({l['param']} : {l['ptype']})" for l in loops]
+        out.append(f"/-- `{n}._match` -/\ndef {n}__match (S : Sem) {' '.join(lparams + fparams)} ({v} : MVal) ({c} : Ctx) : Res :=\n".replace("  (", " (")
+                   + f"{_ind(body)}\n")
+        loop_defs += [l["def"] for l in loops]
+        for ctor, consts in spec["ctors"]:
+            pat_fields = [f"self_{f}" for f, _ in spec["fields"] if f not in consts]
+            closures = []
+            for l in loops:
+                xs = [f"a{i}" for i in range(l["nargs"])]
+                closures.append(f"(fun {' '.join(xs)} => {l['name']} S {l['coll']} {' '.join(xs)})")
+            args = closures + [consts.get(f, f"self_{f}") for f, _ in spec["fields"]]
+            arms.append(f"  | {' '.join([ctor, 'self_name'] + pat_fields)}, value, ctx =>\n"
+                        f"    BaseMatcher_match self_name (fun value ctx => {' '.join([n + '__match', 'S'] + args)} value ctx) value ctx")
+    out.append("mutual\n/-- `matcher.match(value, ctx)`: `BaseMatcher.match` with `self._match` dispatched on the class of the matcher -/\n"
+               "def matcher_match (S : Sem) : Matcher → MVal → Option Ctx → Res\n" + "\n".join(arms) + "\n" + "\n".join(loop_defs) + "\nend\n")
+    out.append("end PyOak.GenK.PMatch\n")
+    return "\n".join(out)
+
+
 def write_if_changed(src: Path, dest: Path) -> tuple[bool, str]:
     text = generate(src)
     if dest.exists() and dest.read_text() == text:
@@ -767,3 +1567,4 @@ if __name__ == "__main__":
     print(generate_xpath(root))
     print(generate_eq(root))
     print(generate_is_equal(root))
+    print(generate_match(root))
